@@ -885,6 +885,23 @@ def _refresh_elementwise_output_shape(node: ir.Node) -> None:
     out.shape = ir.Shape(merged)
 
 
+def _chain_side_operands_are_layout_free(node: ir.Node) -> bool:
+    """Only the data input of a chain node follows the transposed layout.
+
+    CastLike's second input supplies a dtype only; every other extra operand
+    (Max/Min operands, Clip bounds) must be a one-element constant, otherwise
+    moving the node in front of the Transpose changes how it broadcasts.
+    """
+    if node.op_type == "CastLike":
+        return True
+    for extra in _node_inputs(node)[1:]:
+        if extra is None:
+            continue
+        if not _is_scalar_const_value(extra):
+            return False
+    return True
+
+
 def _collect_transpose_elementwise_chain(
     nodes: Sequence[ir.Node],
     start_value: ir.Value,
@@ -1648,6 +1665,8 @@ def remove_redundant_transpose_pairs_ir(graph: ir.Graph) -> None:
                     steps += 1
                     m = cur
                     if m.op_type in ALLOWED_ELEMWISE:
+                        if not _chain_side_operands_are_layout_free(m):
+                            break
                         chain_nodes.append(m)
                         allowed_nodes.append(m)
                         cur_val = _node_output(m)
@@ -1785,6 +1804,7 @@ def remove_redundant_reshape_pairs_ir(graph: ir.Graph) -> None:
                 if (
                     prod_node.op_type in ALLOWED_ELEMWISE
                     and (getattr(prod_node, "domain", "") or "") == ""
+                    and _chain_side_operands_are_layout_free(prod_node)
                 ):
                     allowed_nodes.append(prod_node)
                     v = _first_input(prod_node)
